@@ -141,7 +141,7 @@ func (*DataProcessor).startWindowProcessing$1
   before processWindowBatch a-batch-taken-from-the-window-is-processed-as-it-is: $selected == 0 && $recvok && seqeq($arg1, batch)
   atreturn the-consumer-ends-only-when-stopped-or-the-output-is-closed: $selected == 1 || ($selected == 0 && !$recvok)
 
-extern rewriteQualifiedRefs
+func rewriteQualifiedRefs
   props C07 C04 C05 C06 C16 C20
   option pure
 
@@ -189,7 +189,7 @@ func (*DataProcessor).Process
 
 // a result batch is booked exactly once, and on the output side: sent, or dropped as output; the input-side books (rows
 // emitted, rows dropped before processing) are not touched by what happens to a result
-extern (*Stream).logDroppedDataWithThrottling
+func (*Stream).logDroppedDataWithThrottling
   props C19 C05
   modifies s.lastDropLogTime, s.dropLogCount
 
@@ -686,7 +686,7 @@ func (*Stream).enrichData
   ensures callers-row-untouched: mapUnchanged(data)
   loop 1 invariant fresh(dataMap) && mapUnchanged(data)
 
-extern (*Stream).ensureAnalytic
+func (*Stream).ensureAnalytic
   props C20 C14 C05 C06 C12 C13 C15 C16 C19
   modifies s.analytic
 
@@ -728,12 +728,49 @@ func (*Stream).applyWhereAndAnalytic
 pred finfo(s, spec) := s.compiledFieldInfo[spec]
 pred otherKeysKept(result, key) := forallv(k, "", k != key ==> (dom(result, k) <==> old(dom(result, k))) && result[k] == old(result[k]))
 
-extern (*Stream).executeFunction
+// the name of the function a call text begins with: the text before the first parenthesis, blanks trimmed; no name when
+// there is no parenthesis or when that text holds a blank or an operator (the call is then part of a larger expression)
+func extractFunctionName
   props C05 C04 C06 C07 C16 C20
+  option pure
+  ensures no-parenthesis-no-name: strings.Index(expr, "(") == -1 ==> result == ""
+  ensures the-name-is-the-text-before-the-first-parenthesis-unless-it-holds-a-blank-or-an-operator: strings.Index(expr, "(") != -1 ==> result == ite(strings.ContainsAny(strings.TrimSpace(expr[:strings.Index(expr, "(")]), " +-\x2a/=<>!&|"), "", strings.TrimSpace(expr[:strings.Index(expr, "(")]))
 
-extern (*Stream).processSingleFieldFallback
+// a function column: a registered function is executed with the arguments worked out from this expression on this
+// row, and its answer is the answer; anything else goes to the bridge as the same text on this row
+func (*Stream).executeFunction
   props C05 C04 C06 C07 C16 C20
+  option assumed_frame
+  observe fn := Get
+  observe known := Get#1
+  observe args := parseFunctionArgs
+  observe argErr := parseFunctionArgs#1
+  observe val := Execute
+  observe valErr := Execute#1
+  observe bval := EvaluateExpression
+  observe berr := EvaluateExpression#1
+  count ran := Execute
+  count bridged := EvaluateExpression
+  before parseFunctionArgs the-arguments-are-those-of-this-expression-on-this-row: $arg1 == funcExpr && $arg2 == data
+  before Execute the-function-runs-on-the-arguments-just-worked-out-with-this-row-as-context: $arg2 == $args && $arg1 != nil && $arg1.Data == data
+  before EvaluateExpression the-bridge-sees-the-same-text-and-this-row: $arg1 == funcExpr && $arg2 == data
+  atreturn a-registered-functions-answer-is-the-answer: $ran == 1 ==> result0 == $val && result1 == $valErr && $bridged == 0
+  atreturn arguments-that-cannot-be-worked-out-are-an-error-not-a-call: extractFunctionName(funcExpr) != "" && $known && $argErr != nil ==> $ran == 0 && $bridged == 0 && result1 != nil && result0 == nil
+  atreturn an-unregistered-call-goes-to-the-bridge-whose-value-is-the-answer: $bridged == 1 ==> $ran == 0 && ($berr == nil ==> result0 == $bval && result1 == nil) && ($berr != nil ==> result0 == nil && result1 != nil)
+
+// a simple SELECT item without compiled info: `*` copies every column of the row that no expression item computes; a
+// call item is executed on this row; a plain (or nested) column is copied under its output name, NULL when absent
+func (*Stream).processSingleFieldFallback
+  props C05 C04 C06 C07 C16 C20
+  requires result != nil
   modifies mapof(result)
+  observe fval := executeFunction
+  observe ferr := executeFunction#1
+  count called := executeFunction
+  before executeFunction a-call-item-is-executed-on-this-row: $arg2 == dataMap
+  atreturn select-star-copies-every-column-of-the-row-that-no-expression-item-computes: fieldSpec == "*" ==> $called == 0 && forallv(k, "", dom(dataMap, k) && !dom(s.config.FieldExpressions, k) ==> dom(result, k) && result[k] == dataMap[k])
+  atreturn the-value-of-a-call-item-is-the-functions-answer-an-error-gives-null: $called == 1 ==> dom(result, outputName) && result[outputName] == ite($ferr == nil, $fval, nil)
+  loop 1 invariant result != nil && forallv(k, "", $visited[k] && dom(dataMap, k) && !dom(s.config.FieldExpressions, k) ==> dom(result, k) && result[k] == dataMap[k])
 
 // argument splitting of a function call text: commas separate arguments only outside quotes and outside nested parentheses,
 // and parentheses inside a quoted literal are text. qst2 / pdepth: quote state and parenthesis depth after n bytes.
@@ -855,10 +892,15 @@ func (*Stream).processSimpleField
   ensures star-copies-every-column-not-owned-by-an-expression: dom(s.compiledFieldInfo, fieldSpec) && finfo(s, fieldSpec) != nil && finfo(s, fieldSpec).isSelectAll ==> forallv(k, "", (dom(dataMap, k) && !dom(s.config.FieldExpressions, k) ==> dom(result, k) && result[k] == dataMap[k]) && (!(dom(dataMap, k) && !dom(s.config.FieldExpressions, k)) ==> (dom(result, k) <==> old(dom(result, k))) && result[k] == old(result[k])))
   loop 1 invariant mapUnchanged(dataMap) && forallv(k, "", ($visited[k] ==> dom(dataMap, k)) && ($visited[k] && !dom(s.config.FieldExpressions, k) ==> dom(result, k) && result[k] == dataMap[k]) && (!($visited[k] && !dom(s.config.FieldExpressions, k)) ==> (dom(result, k) <==> old(dom(result, k))) && result[k] == old(result[k])))
 
-extern (*Stream).projectAnalytic
+func (*Stream).projectAnalytic
   props C05 C20 C06 C12 C13 C14 C15 C16 C19
+  requires result != nil
   modifies mapof(result)
   ensures nothing-analytic-nothing-added: analyticResults == nil ==> mapUnchanged(result)
+  loop 1 step a-single-column-analytic-value-lands-under-its-own-alias-an-unchanged-changed-col-is-left-out: !$s[$i - 1].MultiColumn && dom(analyticResults, $s[$i - 1].Alias) && !($s[$i - 1].FuncName == "changed_col" && analyticResults[$s[$i - 1].Alias] == nil) ==> dom(result, $s[$i - 1].Alias) && result[$s[$i - 1].Alias] == analyticResults[$s[$i - 1].Alias]
+  loop 1 step a-single-column-field-writes-no-other-column: !$s[$i - 1].MultiColumn ==> forallv(k, "", k != $s[$i - 1].Alias ==> (dom(result, k) <==> prev(dom(result, k))) && result[k] == prev(result[k]))
+  loop 1 step a-field-without-a-value-or-an-unchanged-changed-col-writes-nothing: !$s[$i - 1].MultiColumn && (!dom(analyticResults, $s[$i - 1].Alias) || ($s[$i - 1].FuncName == "changed_col" && analyticResults[$s[$i - 1].Alias] == nil)) ==> forallv(k, "", (dom(result, k) <==> prev(dom(result, k))) && result[k] == prev(result[k]))
+  atreturn every-analytic-field-is-projected: analyticResults != nil ==> $done1
 
 func (*Stream).hasOmitEmptyAnalytic
   props C05 C06 C12 C13 C14 C15 C16 C19 C20
@@ -1003,9 +1045,12 @@ extern (*analyticFieldEngine).partitionKey
 
 pure github.com/rulego/streamsql/types.AnalyticSelfTokenN
 
-extern lookupRowField
+func lookupRowField
   props C14 C04 C05 C06 C07 C16 C20
   option pure
+  ensures a-column-of-that-very-name-wins: dom(data, key) ==> result1 && result0 == data[key]
+  ensures a-qualified-name-falls-back-to-its-last-segment: !dom(data, key) && strings.LastIndex(key, ".") >= 0 && strings.LastIndex(key, ".") < len(key) - 1 && dom(data, key[strings.LastIndex(key, ".") + 1:]) ==> result1 && result0 == data[key[strings.LastIndex(key, ".") + 1:]]
+  ensures otherwise-absent: !dom(data, key) && !(strings.LastIndex(key, ".") >= 0 && strings.LastIndex(key, ".") < len(key) - 1 && dom(data, key[strings.LastIndex(key, ".") + 1:])) ==> !result1 && result0 == nil
 
 func resolvePartitionField
   props C14 C12
@@ -1014,22 +1059,37 @@ func resolvePartitionField
   ensures then-the-suffix-fallback: !dom(row, key) && !second(fieldpath.GetNestedField(row, key)) && second(lookupRowField(row, key)) ==> result == lookupRowField(row, key)
   ensures otherwise-null: !dom(row, key) && !second(fieldpath.GetNestedField(row, key)) && !second(lookupRowField(row, key)) ==> result == nil
 
-extern hasStarArg
+func hasStarArg
   props C14 C12
   option pure
+  ensures a-star-among-the-arguments-blanks-aside: result <==> exists(j, 0, len(args), strings.TrimSpace(args[j]) == "*")
+  loop 1 invariant forall(j, 0, $i, strings.TrimSpace(args[j]) != "*")
 
-extern literalValue
+func literalValue
   props C14 C12
   option pure
+  ensures the-two-truth-words-are-booleans: strings.TrimSpace(s) == "true" ==> result == boxof(true, bool)
+  ensures false-is-false: strings.TrimSpace(s) == "false" ==> result == boxof(false, bool)
+  before ParseFloat a-number-is-read-at-full-precision-from-the-trimmed-text: $arg1 == 64 && $arg0 == strings.TrimSpace(old(s))
+  before Atoi an-integer-is-read-from-the-trimmed-text: $arg0 == strings.TrimSpace(old(s))
 
 extern (*analyticFieldEngine).applyCall
   props C14 C12
   modifies *
   ensures the-engines-own-bookkeeping-is-not-touched: fe.lastResults == old(fe.lastResults) && mapUnchanged(fe.lastResults) && fe.whenCond == old(fe.whenCond) && fe.af == old(fe.af)
 
-extern analyticColName
+pred acnBare(e) := strings.Trim(strings.TrimSpace(e), "`")
+pred acnQuoted(t) := len(t) >= 2 && ((t[0] == 34 && t[len(t) - 1] == 34) || (t[0] == 39 && t[len(t) - 1] == 39))
+pred acnUnq(t) := ite(acnQuoted(t), t[1:len(t) - 1], t)
+pred acnLast(t) := ite(strings.LastIndex(t, ".") >= 0, t[strings.LastIndex(t, ".") + 1:], t)
+
+// the column an analytic argument names: blanks, backticks and one pair of quotes dropped, then the last segment of a
+// qualified name
+func analyticColName
   props C14 C12
+  option safety
   option pure
+  ensures the-column-is-the-last-segment-of-the-unquoted-name: result == acnLast(acnUnq(acnBare(expr)))
 
 // changed_cols and its kin: the partition and the WHEN gate are decided by the incoming row itself (not by the columns
 // being watched), the state consulted is the one of the row's own partition, and a row that fails WHEN repeats the
